@@ -1,4 +1,5 @@
 import GS.Model.LinkTracker
+import GS.Generated.PrepareQuery
 /-!
 Operational model of ONE responder answering requests of one peer (property C03), core Lean only.
 
@@ -6,6 +7,9 @@ Mirrors, function by function:
 
   responsemanager/preparequery.go       prepareQuery, processDedupByKey, processDoNoSendCids,
                                         processDoNotSendFirstBlocks      -> `prepareQuery`, `runStage`
+                                        (the order of the stages and every status code on an error
+                                        path come from `GS/Generated/PrepareQuery.lean`, regenerated
+                                        from the Go source by translate/preparequery on every run)
   responsemanager/queryexecutor         runTraversal, loadBlock, sendResponse, checkForUpdates,
                                         executeQuery                     -> `runTraversal`, `finishQuery`
   ipldutil/traverser.go                 the traverser as the executor sees it (CurrentRequest /
@@ -55,15 +59,22 @@ def Store.has (s : Store) (c : Cid) : Bool := s.held.contains c
 def Store.isCorrupt (s : Store) (c : Cid) : Bool := s.corrupt.contains c
 def Store.isEmpty (s : Store) (c : Cid) : Bool := s.empty.contains c
 
-/-- graphsync.ResponseStatusCode (the ones a responder emits here). -/
+/-- graphsync.ResponseStatusCode (the ones a responder emits here; any other code as `other`). -/
 inductive Status where
   | partialResponse | paused | completedFull | completedPartial
   | rejected | failedUnknown | contentNotFound | cancelled
+  | other (code : Nat)
 deriving Repr, DecidableEq, Inhabited
 
 def Status.code : Status → Nat
   | .partialResponse => 14 | .paused => 15 | .completedFull => 20 | .completedPartial => 21
   | .rejected => 30 | .failedUnknown => 32 | .contentNotFound => 34 | .cancelled => 35
+  | .other c => c
+
+def Status.ofCode (c : Nat) : Status :=
+  if c = 14 then .partialResponse else if c = 15 then .paused else if c = 20 then .completedFull
+  else if c = 21 then .completedPartial else if c = 30 then .rejected else if c = 32 then .failedUnknown
+  else if c = 34 then .contentNotFound else if c = 35 then .cancelled else .other c
 
 /-- an extension of the request: absent, present but undecodable, or decoded. -/
 inductive ExtVal (α : Type) where
@@ -100,22 +111,23 @@ abbrev Txn := List ROp
 
 /-! ### prepareQuery -/
 
-inductive Stage where
-  | dedupByKey | doNotSendCids | doNotSendFirstBlocks
-deriving Repr, DecidableEq
+/-- the extension stages (generated). -/
+abbrev Stage := GS.Generated.PrepareQuery.Stage
 
-/-- order in which `prepareQuery` processes the extensions. -/
-def stages : List Stage := [.dedupByKey, .doNotSendCids, .doNotSendFirstBlocks]
+/-- order in which `prepareQuery` processes the extensions (generated from the Go source). -/
+def stages : List Stage := GS.Generated.PrepareQuery.stages
 
-/-- status sent when the extension of a stage does not decode. -/
-def stageErrStatus : Stage → Status
-  | .dedupByKey => .failedUnknown
-  | .doNotSendCids => .failedUnknown
-  | .doNotSendFirstBlocks => .failedUnknown
+/-- status sent when the extension of a stage does not decode (generated). -/
+def stageErrStatus (s : Stage) : Status := Status.ofCode (GS.Generated.PrepareQuery.stageErrCode s)
 
-/-- status of the first transaction when the hooks returned an error / did not validate. -/
-def hookErrStatus : Status := .failedUnknown
-def notValidatedStatus : Status := .rejected
+/-- status of the first transaction when the hooks returned an error / did not validate (generated). -/
+def hookErrStatus : Status := Status.ofCode GS.Generated.PrepareQuery.hookErrCode
+def notValidatedStatus : Status := Status.ofCode GS.Generated.PrepareQuery.notValidatedCode
+
+/-- `executeQuery`: status per error of `runTraversal` (generated). -/
+def firstBlockStatus : Status := Status.ofCode GS.Generated.PrepareQuery.firstBlockLoadCode
+def cancelledStatus : Status := Status.ofCode GS.Generated.PrepareQuery.cancelledByCommandCode
+def otherErrorStatus : Status := Status.ofCode GS.Generated.PrepareQuery.otherErrorCode
 
 /-- one `process*` function; `none` = the extension data does not decode. -/
 def runStage (p : PeerTracker) (r : Req) (e : Ext) : Stage → Option PeerTracker
@@ -242,9 +254,9 @@ def finishQuery (p : PeerTracker) (r : Req) : Exit → PeerTracker × List Txn
   | .complete =>
     let (p', all) := p.finishTracking r
     (p', [[.status (if all then .completedFull else .completedPartial)]])
-  | .firstBlock => let (p', t) := finishWithError p r .contentNotFound; (p', [t])
-  | .cancelled => let (p', t) := finishWithError p r .cancelled; (p', [t])
-  | .failed => let (p', t) := finishWithError p r .failedUnknown; (p', [t])
+  | .firstBlock => let (p', t) := finishWithError p r firstBlockStatus; (p', [t])
+  | .cancelled => let (p', t) := finishWithError p r cancelledStatus; (p', [t])
+  | .failed => let (p', t) := finishWithError p r otherErrorStatus; (p', [t])
 
 /-- `executeQuery` from the state `run` (first start or resumption). -/
 def executeQuery (s : Store) (stop : Stop) (r : Req) (p : PeerTracker) (run : Run) :
